@@ -12,7 +12,7 @@ mkdir -p $DST
 cp $SRC/patch.diff $SRC/demo_test.go $SRC/go.mod $DST/ 2>/dev/null
 [ -d $SRC/testdata ] && cp -r $SRC/testdata $DST/
 DEMO=$(mktemp -d); cp -r $SRC/* $DEMO/; cp $W/go.sum $DEMO/go.sum
-sed -i -E "s#=> /tmp/mut2?/$ID\$#=> $W#" $DEMO/go.mod
+sed -i -E "s#=> /tmp/mut[0-9]*/$ID\$#=> $W#" $DEMO/go.mod
 RACE=""; grep -q -- "-race" $SRC/meta.json && RACE="-race"
 demo() { (cd $DEMO && timeout 600 go test $RACE -count=1 ./... >/dev/null 2>&1); echo $?; }
 D0=$(demo)
